@@ -181,4 +181,39 @@ LawPlaceShift(ref, ts, n) ==
 ImplPlaceMatches(ref, ts) ==
   /\ ImplPlace(ref, ts) % M = ts
   /\ PlaceConstrained(ref, ts) => ImplPlace(ref, ts) = Place(ref, ts)
+
+----------------------------------------------------------------------------
+(* Text entry points of signature times (RFC 4034 section 3.2): a token     *)
+(* denotes a time t (a natural number of seconds since the epoch), either   *)
+(* as a date YYYYMMDDHHmmSS or as a decimal integer; the field holds t      *)
+(* modulo 2^BITS.  The calendar is abstracted away: the specification       *)
+(* speaks about the denoted time only, the harness renders real dates.      *)
+Denote(t) == t % M
+
+\* Timestamp::scan / FromStr, date branch: `time.as_second() as u32`
+ImplScanDate(t) == [ok |-> t % M]
+\* integer branch: `token.parse::<u32>()`; an integer that does not fit the
+\* field is outside the property (IntFormConstrained is false)
+IntFormConstrained(t) == t < M
+ImplScanInt(t) == IF t < M THEN [ok |-> t] ELSE [err |-> TRUE]
+\* Display / zone-file formatting writes the integer form of the field value
+ImplDisplay(v) == v
+
+\* Laws: times less than half a cycle apart keep their order through the
+\* field, also across era boundaries; the denoted time is recovered by
+\* placing the field value next to any reference less than half a cycle away;
+\* passing time commutes with the field's addition; writing and reading back
+\* is the identity on field values.
+LawDenoteOrder(t1, t2) ==
+  /\ (t2 - t1 \in 1 .. H - 1) => Cmp(Denote(t1), Denote(t2)) = "LT"
+  /\ (t1 - t2 \in 1 .. H - 1) => Cmp(Denote(t1), Denote(t2)) = "GT"
+  /\ (Cmp(Denote(t1), Denote(t2)) = "EQ") <=> ((t2 - t1) % M = 0)
+  /\ (Cmp(Denote(t1), Denote(t2)) = "UNDEF") <=> ((t2 - t1) % M = H)
+LawDenotePlace(t1, t2) ==
+  (t2 - t1 \in -(H - 1) .. (H - 1)) => Place(t1, Denote(t2)) = t2
+LawDenoteAdd(t, n) == Denote(t + n) = Add(Denote(t), n % M)
+LawTextRoundTrip(t) ==
+  /\ ImplScanDate(t) = [ok |-> Denote(t)]
+  /\ IntFormConstrained(ImplDisplay(Denote(t)))
+  /\ ImplScanInt(ImplDisplay(Denote(t))) = [ok |-> Denote(t)]
 =============================================================================
